@@ -85,6 +85,17 @@ fn value(h: &str) -> Option<String> {
     String::from_utf8(unhex(h)).ok()
 }
 
+/// history that must be irrelevant: render a CLONE of a sub-filter (as sending a command with it
+/// would) before the sub-filter is negated / combined. Done for every other op line (by the length of
+/// the tree text), so that both the used and the unused state are exercised.
+fn touch(s: &str, f: &Filter) {
+    if s.len() % 2 == 0 {
+        if let Ok(mut c) = Command::build("find") {
+            let _ = c.add_argument(f.clone());
+        }
+    }
+}
+
 pub(crate) fn parse_tree(s: &str, p: &mut usize) -> Option<Filter> {
     let kind = s[*p..].chars().next()?;
     *p += 1;
@@ -106,12 +117,22 @@ pub(crate) fn parse_tree(s: &str, p: &mut usize) -> Option<Filter> {
         }
         'E' => Filter::tag_exists(mk_tag(up_to(s, p, ')'))?),
         'X' => Filter::tag_absent(mk_tag(up_to(s, p, ')'))?),
-        'N' => parse_tree(s, p)?.negate(),
-        'M' => !parse_tree(s, p)?,
+        'N' => {
+            let g = parse_tree(s, p)?;
+            touch(s, &g);
+            g.negate()
+        }
+        'M' => {
+            let g = parse_tree(s, p)?;
+            touch(s, &g);
+            !g
+        }
         'A' => {
             let a = parse_tree(s, p)?;
             eat(s, p, ';')?;
             let b = parse_tree(s, p)?;
+            touch(s, &a);
+            touch(s, &b);
             a.and(b)
         }
         _ => return None,
